@@ -28,6 +28,11 @@ Exceptions, class hierarchies, handler behaviours, call events and the pure `Out
 `Model/Handlers.lean`; `Props/C14Compose.lean` proves that the pure part of `hx` IS
 `handleException` (so the eight C14 theorems apply to the composed run).
 
+Cross-checked against the real code by `harness/corr/c14compose.py` (the real `run`, `_run`,
+`_react`, `_handle_exit`, `_handle_exception`, `connect`, `disconnect` executed on a scripted
+connection; driver command `thread`, `Drive/C14Compose.lean`), which is how the replacement of
+`self.reactor` by `connect()` (`Setup.rhNew`) was found.
+
 Scope.  One thread, no interleaving: what other threads can do in between is the subject of the
 transition system `Model/Lifecycle.lean`; the second half of `Props/C14Compose.lean` proves the
 corresponding facts there (for all schedules).  The prologue of `run` (waiting for the previous
